@@ -153,15 +153,45 @@ def cmd_seeded(args):
     return 1 if missed else 0
 
 
+def cmd_benign(args):
+    """Behaviour-preserving refactors (written by independent sub-agents): EVERY check must stay silent on them."""
+    base = os.path.join(HERE, "benign")
+    only = set(args.only.split(",")) if args.only else None
+    props = args.props.split(",") if args.props else ["C01", "C02", "C03", "C04", "C05", "C07", "C08", "C10", "C13", "C16", "C17", "C19"]
+    alarms = []
+    n = 0
+    for name in sorted(os.listdir(base)) if os.path.isdir(base) else []:
+        patch = os.path.join(base, name, "patch.diff")
+        if not os.path.exists(patch) or (only and name not in only):
+            continue
+        d = make_scratch_repo("benign-" + name)
+        try:
+            ap_ = subprocess.run(["git", "-C", d, "apply", patch], capture_output=True, text=True)
+            if ap_.returncode != 0:
+                print("BENIGN %s: patch does not apply: %s" % (name, ap_.stderr[:300]))
+                continue
+            n += 1
+            for prop in props:
+                rc, lines, wall, err = run_check(prop, d, tier=args.tier)
+                print("BENIGN %-28s %s -> exit %d (%.0fs) %s" % (name, prop, rc, wall, (lines[0][:160] if lines else (err[-200:].replace("\n", " ") if rc else ""))), flush=True)
+                if rc != 0:
+                    alarms.append((name, prop, rc))
+        finally:
+            drop_scratch_repo(d)
+    print("benign: %d refactors x %d checks, alarms: %s" % (n, len(props), alarms))
+    return 1 if alarms else 0
+
+
 def main():
     ap = argparse.ArgumentParser()
-    ap.add_argument("cmd", choices=["determinism", "mutants", "seeded"])
+    ap.add_argument("cmd", choices=["determinism", "mutants", "seeded", "benign"])
+    ap.add_argument("--props")
     ap.add_argument("--seeds", type=int, default=40)
     ap.add_argument("--procs", type=int, default=16)
     ap.add_argument("--only")
     ap.add_argument("--tier", default="quick")
     args = ap.parse_args()
-    return {"determinism": cmd_determinism, "mutants": cmd_mutants, "seeded": cmd_seeded}[args.cmd](args)
+    return {"determinism": cmd_determinism, "mutants": cmd_mutants, "seeded": cmd_seeded, "benign": cmd_benign}[args.cmd](args)
 
 
 if __name__ == "__main__":
